@@ -18,7 +18,9 @@ RULE = ("programs = (a) bounded-exhaustive: every statement forest with <= 3 (qu
         "@media, @include-with-content-block, mixin body, function body}, with and without a leading global "
         "declaration, at least one read; (b) random programs nesting rules, @if/@each/@for/@while, @media, "
         "@supports, mixins (with @content), functions to depth 4 over $a $b $c (+ loop variables and parameters "
-        "that shadow them), reads emitted as declarations `r{pN: $x}` at every level. Non-trivial = the spec "
+        "that shadow them), reads emitted as declarations `r{pN: $x}` at every level; (c) `!default` over a variable holding "
+        "(), null null, (null,), unquote(\"\"), \"\", [], 0, false, null, 5 x 19 places (flat, rule, local, @media, @if, loops, mixin, "
+        "content block, function, parameter, parameter default, !global !default, nested). Non-trivial = the spec "
         "model gives a definite non-error result with at least one emitted read.")
 TRUSTED = ["props/_coregen.py prints the same program object as SCSS and as the model's term",
            "regex extraction of `pN: value;` lines from rsass's expanded output"]
@@ -331,8 +333,62 @@ def fixed():
         yield Case(program_line(prog), "fixed", {"shape": name})
 
 
+# `!default` over values that are blank / falsy but not null (and over null itself)
+BLANKS = {
+    "empty-list": lambda: lst([]),                       # ()
+    "null-null": lambda: lst([NULL, NULL], comma=False),  # null null
+    "null-comma": lambda: lst([NULL], comma=True),        # (null,)
+    "empty-unquoted": lambda: ident(""),                  # unquote("")
+    "empty-quoted": lambda: qstr(""),                     # ""
+    "empty-bracketed": lambda: blst([]),                  # []
+    "zero": lambda: num(0),
+    "false": lambda: FALSE,
+    "null": lambda: NULL,                                 # the one value !default does overwrite
+    "five": lambda: num(5),
+}
+
+
+def default_blank():
+    """bounded-exhaustive: every blank value x every place the `!default` assignment can stand"""
+    for bname, mk in BLANKS.items():
+        printable = bname != "empty-unquoted"       # inspect(unquote("")) is an empty declaration value
+
+        def obs(n):
+            out = [emit(f"p{n}", inspect(eq(var("e"), num(1))))]
+            if printable:
+                out.append(emit(f"p{n + 1}", inspect(var("e"))))
+            return out
+
+        d = lambda glob=False: decl("e", num(1), dflt=True, glob=glob)
+        contexts = {
+            "flat": [decl("e", mk()), d()] + obs(1),
+            "flat-global-flag": [decl("e", mk()), d(True)] + obs(1),
+            "rule": [decl("e", mk()), rule([d()] + obs(1))] + obs(3),
+            "rule-global-flag": [decl("e", mk()), rule([d(True)] + obs(1))] + obs(3),
+            "local": [rule([decl("e", mk()), d()] + obs(1))],
+            "local-nested": [rule([decl("e", mk()), rule([d()] + obs(1))] + obs(3))],
+            "media": [decl("e", mk()), media([d()] + obs(1))] + obs(3),
+            "if": [decl("e", mk()), if_(TRUE, [d()] + obs(1))] + obs(3),
+            "each": [decl("e", mk()), each("i", lst([num(1), num(2)]), [d()] + obs(1))] + obs(3),
+            "for": [decl("e", mk()), for_("i", num(1), num(2), True, [d()] + obs(1))] + obs(3),
+            "while": [decl("e", mk()), decl("k", num(0)), while_(lt(var("k"), num(1)), [decl("k", add(var("k"), num(1))), d()] + obs(1))] + obs(3),
+            "mixin": [decl("e", mk()), mixin("m", Params(), [d()] + obs(1)), incl("m")] + obs(3),
+            "content": [decl("e", mk()), mixin("w", Params(), [content()]), rule([incl("w", [], [d()] + obs(1))])] + obs(3),
+            "function": [decl("e", mk()), func("f", Params(), [d(), ret(inspect(eq(var("e"), num(1))))]), emit("p1", call("f", []))] + obs(3),
+            "function-global-flag": [decl("e", mk()), func("f", Params(), [d(True), ret(num(0))]), emit("p1", call("f", []))] + obs(3),
+            "param": [mixin("m", Params([("e", None)]), [d()] + obs(1)), incl("m", [("p", mk())])],
+            "param-default": [mixin("m", Params([("e", mk())]), [d()] + obs(1)), incl("m")],
+            "rule-if-for": [decl("e", mk()), rule([if_(TRUE, [for_("i", num(1), num(1), True, [d()] + obs(1))])] + obs(3))] + obs(5),
+            "twice": [decl("e", mk()), d(), decl("e", num(2), dflt=True)] + obs(1),
+        }
+        for cname, prog in contexts.items():
+            yield Case(program_line(prog), "default-blank", {"value": bname, "context": cname})
+
+
 def gen(tier, rng, boost=1):
     yield from fixed()
+    if boost == 1:
+        yield from default_blank()
     if boost == 1:
         yield from exhaustive(3 if tier == "quick" else 4)
     n = (1500 if tier == "quick" else 20000) * boost
